@@ -165,7 +165,7 @@ R.pred("permute_keeps_relative_order_of_non_singleton_modes")(_keeps_layout)
 R.pred("other_is_sumtensor")(lambda c: c.get("okind") == "sumtensor")
 
 
-@op("tensor/permute", g_permute, quick=80, thorough=3000)
+@op("tensor/permute", g_permute, quick=80, thorough=2000)
 def _(ctx, c):
     X = T(c)
     perm_labels(ctx, c)
@@ -181,7 +181,7 @@ def g_reshape(draw, tier):
     return c
 
 
-@op("tensor/reshape", g_reshape, quick=80, thorough=3000)
+@op("tensor/reshape", g_reshape, quick=80, thorough=2000)
 def _(ctx, c):
     X = T(c)
     ctx.label("same-shape" if list(c["new"]) == list(c["shape"]) else "other-shape")
@@ -505,7 +505,7 @@ def g_tenfun(draw, tier):
 R.pred("tenfun_passthrough")(lambda c: c.get("f") in ("first", "second", "identity", "real"))
 
 
-@op("tensor/tenfun", g_tenfun, quick=120, thorough=4000)
+@op("tensor/tenfun", g_tenfun, quick=120, thorough=2500)
 def _(ctx, c):
     X = T(c)
     ops = {"self": X}
@@ -584,7 +584,7 @@ def g_to_tenmat(draw, tier):
     return c
 
 
-@op("tensor/to_tenmat", g_to_tenmat, quick=80, thorough=3000)
+@op("tensor/to_tenmat", g_to_tenmat, quick=80, thorough=2000)
 def _(ctx, c):
     X = T(c)
     ops = {"self": X}
@@ -801,7 +801,7 @@ def g_getitem(draw, tier):
     return c
 
 
-@op("tensor/getitem", g_getitem, quick=120, thorough=4000)
+@op("tensor/getitem", g_getitem, quick=120, thorough=2500)
 def _(ctx, c):
     X = T(c)
     key, lab = build_key(c["key"])
@@ -843,7 +843,7 @@ def g_setitem(draw, tier):
 R.pred("key_is_negative_linear_array")(lambda c: c["key"]["kind"] == "lin-arr" and bool(c["key"].get("has_negative")))
 
 
-@op("tensor/setitem", g_setitem, quick=120, thorough=4000, inplace="self")
+@op("tensor/setitem", g_setitem, quick=120, thorough=2500, inplace="self")
 def _(ctx, c):
     X = T(c)
     key, lab = build_key(c["key"])
